@@ -240,8 +240,13 @@ void ezc3d::ParametersNS::Parameters::write(std::fstream &f) const
 
     // Write each groups
     std::streampos dataStartPosition; // Special parameter in POINT group
-    for (size_t i=0; i < nbGroups(); ++i)
+    for (size_t i=0; i < nbGroups(); ++i){
+        // Unnamed and empty groups are the placeholders the reader creates for the group ids a file does not use.
+        // They are not part of the content (and a name of length 0 would be read as the end of the section)
+        if (group(i).name().empty() && group(i).nbParameters() == 0)
+            continue;
         group(i).write(f, -static_cast<int>(i+1), dataStartPosition);
+    }
 
     // Move the cursor to a beginning of a block
     std::streampos actualPos(f.tellg());
